@@ -17,7 +17,7 @@ from . import common as C
 OCAML = ["c07"]
 GO = ["c07", "c07shape"]
 PROP = "props/C07.v"
-PROOFS = ["proofs/LifecycleInv.v", "proofs/LifecycleStep.v", "proofs/LifecycleMain.v", "proofs/LifecycleMono.v",
+PROOFS = ["proofs/LifecycleInv.v", "proofs/LifecycleStep.v", "proofs/LifecycleMain.v", "proofs/LifecycleMono.v", "proofs/LifecycleMeasure.v",
           "proofs/LifecycleRunnerProofs.v", "model/Lifecycle.v", "model/LifecycleRunner.v", "gen/RunnerShape.v"]
 HOOK = "supervisor/lifecycle/verif_on.go (var VerifYield func(point string)) + verifYield calls in startstop.go"
 CORPUS = os.path.join(C.VERIF, "corpus", "C07", "schedules.txt")
